@@ -61,13 +61,15 @@ pub struct DescSpec {
     pub bundle_omit: Vec<usize>,
     /// `a=setup` written at session level (WebRTC mode)
     pub session_setup: Option<&'static str>,
+    /// a direction attribute at session level (`sendonly` | `recvonly` | `inactive` | `sendrecv`)
+    pub session_dir: Option<&'static str>,
     /// raw extra session-level lines (complete, e.g. "b=AS:128")
     pub session_extra: Vec<String>,
 }
 
 impl DescSpec {
     pub fn new(sections: Vec<SecSpec>) -> Self {
-        DescSpec { bundle: sections.len() > 1, fp: FpSpec::A, session_level_fp: false, sections, session_version: 2, ice: true, bundle_omit: vec![], session_setup: None, session_extra: vec![] }
+        DescSpec { bundle: sections.len() > 1, fp: FpSpec::A, session_level_fp: false, sections, session_version: 2, ice: true, bundle_omit: vec![], session_setup: None, session_dir: None, session_extra: vec![] }
     }
 }
 
@@ -115,6 +117,7 @@ pub fn render(mode: &TransportMode, d: &DescSpec) -> String {
         if d.session_level_fp { for l in fp_lines(&d.fp) { o.push_str(&l); o.push_str("\r\n"); } }
         if let Some(su) = d.session_setup { o.push_str(&format!("a=setup:{su}\r\n")); }
     }
+    if let Some(sd) = d.session_dir { o.push_str(&format!("a={sd}\r\n")); }
     for l in &d.session_extra { o.push_str(l); o.push_str("\r\n"); }
     for (i, s) in d.sections.iter().enumerate() {
         let rtp = matches!(s.kind, MediaKind::Audio | MediaKind::Video);
